@@ -2,9 +2,9 @@ SPECIFICATION Spec
 CONSTANTS
   DeliverPhase = "end"
   ImrVals <- ImrSmall
-  MaxDepth = 7
+  MaxDepth <- Unlimited
   MaxNest = 2
-  PcMod = 0
+  PcMod = 2
   AckOnReturn = FALSE
   RecordActs = FALSE
 INVARIANT DeliverOnlyIfEnabled
